@@ -2,7 +2,10 @@ mod broadcaster;
 mod sender;
 
 use std::fmt;
+#[cfg(not(nexosim_verif))]
 use std::sync::{Arc, Mutex};
+#[cfg(nexosim_verif)]
+use crate::verif::sync::{Arc, Mutex};
 use std::time::Duration;
 
 use crate::model::Model;
